@@ -133,58 +133,75 @@ fn c15_validate_short_header_errors() {
     core::mem::forget(res);
 }
 
+macro_rules! c09_zipcrypto_chunking {
+    ($name:ident, $n:expr, $calls:expr, $unwind:expr) => {
+        #[kani::proof]
+        #[kani::unwind($unwind)]
+        fn $name() {
+            const N: usize = $n;
+            const CALLS: usize = $calls;
+            let (k, _r) = any_keys();
+            let mut o = k;
+            let ct: [u8; N] = kani::any();
+            let sched: u64 = kani::any();
+            let src = EnvReader::<N> { data: ct, total: N, pos: 0, env: Env::short(sched) };
+            let mut valid = ZipCryptoReaderValid { reader: ZipCryptoReader { file: src, keys: k } };
+            let mut want = [0u8; N];
+            let mut i = 0;
+            while i < N {
+                want[i] = o.decrypt_byte(ct[i]);
+                i += 1;
+            }
+            let mut got = [0u8; N];
+            let mut n = 0usize;
+            let mut call = 0;
+            let mut saw_short = false;
+            while call < CALLS {
+                let want_len: usize = kani::any();
+                kani::assume(want_len <= N);
+                let mut buf = [0u8; N];
+                match valid.read(&mut buf[..want_len]) {
+                    Ok(m) => {
+                        assert!(m <= want_len);
+                        if m < want_len && n + m < N {
+                            saw_short = true;
+                        }
+                        let mut j = 0;
+                        while j < m {
+                            assert!(n < N);
+                            got[n] = buf[j];
+                            n += 1;
+                            j += 1;
+                        }
+                    }
+                    Err(e) => {
+                        core::mem::forget(e);
+                        assert!(false, "read error from a healthy source");
+                    }
+                }
+                call += 1;
+            }
+            let mut i = 0;
+            while i < N {
+                assert!(n <= i || got[i] == want[i], "decrypted bytes depend on how the reads were split");
+                i += 1;
+            }
+            kani::cover!(n == N && saw_short);
+            kani::cover!(n == N && !saw_short);
+            core::mem::forget(valid);
+        }
+    };
+}
 /// C09/C15 decryption is independent of how the underlying reader splits its reads
 /// (compositional oracle = the proven per-byte step applied to the ciphertext in order): for an
-/// arbitrary key state, 3 ciphertext bytes, an arbitrary short-read schedule of the underlying
-/// reader and arbitrary caller buffer sizes (0..=3 per call, 4 calls), the concatenation of
+/// arbitrary key state, 2 ciphertext bytes, an arbitrary short-read schedule of the underlying
+/// reader and arbitrary caller buffer sizes (0..=2 per call, 3 calls), the concatenation of
 /// the bytes returned equals the one-shot decryption.
-// @h prop=C09,C15 tier=dev t=600 mem=8
-#[kani::proof]
-#[kani::unwind(5)]
-fn c09_zipcrypto_read_chunking() {
-    let (k, _r) = any_keys();
-    let mut o = k;
-    let ct: [u8; 3] = kani::any();
-    let sched: u64 = kani::any();
-    let src = EnvReader::<3> { data: ct, total: 3, pos: 0, env: Env::short(sched) };
-    let mut valid = ZipCryptoReaderValid { reader: ZipCryptoReader { file: src, keys: k } };
-    let want = [o.decrypt_byte(ct[0]), o.decrypt_byte(ct[1]), o.decrypt_byte(ct[2])];
-    let mut got = [0u8; 3];
-    let mut n = 0usize;
-    let mut call = 0;
-    let mut saw_short = false;
-    while call < 4 {
-        let want_len: usize = kani::any();
-        kani::assume(want_len <= 3);
-        let mut buf = [0u8; 3];
-        match valid.read(&mut buf[..want_len]) {
-            Ok(m) => {
-                assert!(m <= want_len);
-                if m < want_len && n + m < 3 {
-                    saw_short = true;
-                }
-                let mut j = 0;
-                while j < m {
-                    assert!(n < 3);
-                    got[n] = buf[j];
-                    n += 1;
-                    j += 1;
-                }
-            }
-            Err(e) => {
-                core::mem::forget(e);
-                assert!(false, "read error from a healthy source");
-            }
-        }
-        call += 1;
-    }
-    assert!(n < 1 || got[0] == want[0]);
-    assert!(n < 2 || got[1] == want[1]);
-    assert!(n < 3 || got[2] == want[2]);
-    kani::cover!(n == 3 && saw_short);
-    kani::cover!(n == 3 && !saw_short);
-    core::mem::forget(valid);
-}
+// @h prop=C09,C15 tier=quick t=1500 mem=4 name=c09_zipcrypto_read_chunking
+c09_zipcrypto_chunking!(c09_zipcrypto_read_chunking, 2, 3, 4);
+/// C09/C15 as above with 3 ciphertext bytes and 4 caller reads of 0..=3 bytes.
+// @h prop=C09,C15 tier=dev t=600 mem=8 name=c09_zipcrypto_read_chunking_n3
+c09_zipcrypto_chunking!(c09_zipcrypto_read_chunking_n3, 3, 4, 5);
 
 macro_rules! c15_writer {
     ($name:ident, $n:expr, $split:expr) => {
